@@ -175,9 +175,9 @@ Proof.
 Qed.
 
 (* ---------- encoder = RFC form ---------- *)
-Lemma encode_rfc f : wf_frame f -> encode_frame f = Ok (rfc_encode f).
+Lemma encode_rfc_anykey f : wf_frame_anykey f -> encode_frame f = Ok (rfc_encode f).
 Proof.
-  intros (Hfin & Hr1 & Hr2 & Hr3 & Hmask & Hop & Hkey & Hplen & Hlt & Hzk).
+  intros (Hfin & Hr1 & Hr2 & Hr3 & Hmask & Hop & Hkey & Hplen & Hlt).
   pose proof (flags_facts _ _ _ _ _ Hfin Hr1 Hr2 Hr3 Hop) as (Hb0 & Hlor & _).
   pose proof (len_nonneg (f_payload f)) as Hnn.
   pose proof (length_code_range (f_plen f) ltac:(lia)) as Hlc.
@@ -205,6 +205,12 @@ Proof.
   rewrite H1, H2, H3. cbn [bind]. rewrite <- Hplen. unfold body_of.
   destruct (f_mask f =? 0); cbn [app]; rewrite <- ?app_assoc; reflexivity.
 Qed.
+
+Lemma wf_frame_anykey_of f : wf_frame f -> wf_frame_anykey f.
+Proof. unfold wf_frame, wf_frame_anykey. tauto. Qed.
+
+Lemma encode_rfc f : wf_frame f -> encode_frame f = Ok (rfc_encode f).
+Proof. intro H. apply encode_rfc_anykey, wf_frame_anykey_of, H. Qed.
 
 (* ---------- parser inverts the RFC form ---------- *)
 Lemma take2 {A} (x y : A) l : takeZ 2 (x :: y :: l) = [x; y] /\ dropZ 2 (x :: y :: l) = l.
